@@ -177,12 +177,11 @@ func c09Cadence(c *core.Case, o *core.Outcome) {
 		}
 		o.AddObs("evaluations_checked", 1)
 	}
-	if len(evs) > p.StopAt+1 {
-		o.Violate("eval-after-stop:"+p.Desc, "%d evaluations although the run was cancelled inside evaluation %d (%s)", len(evs), p.StopAt, p.Desc)
-		return
-	}
+	// Evaluations after the stop are possible (when the ticker and the cancellation are both ready the
+	// worker's select may pick the tick); what must not happen is that their values reach the pool,
+	// which the sum below decides.
 	// value pass-through by conservation (custom mode: concurrency >= max value, instant bodies)
-	if p.Spec.Mode == "custom" && len(evs) == p.StopAt+1 {
+	if p.Spec.Mode == "custom" && len(evs) >= p.StopAt+1 {
 		sum := 0
 		for _, e := range evs[:p.StopAt] {
 			sum += e.v
